@@ -93,7 +93,9 @@ func (m ReceiverMeta) Reduce(
 func (v ReceiverMeta) RetValsRange() common.ResolvedRange {
 	switch len(v.RetVals) {
 	case 0:
-		return common.ResolvedRange{}
+		// No return values to point at - fall back to the receiver's own declaration rather than
+		// the zero range, which resolves to the very first character of the file
+		return v.Range
 	case 1:
 		return common.ResolvedRange{
 			StartLine: v.RetVals[0].Range.StartLine,
